@@ -37,18 +37,20 @@ ok = rec.get("patch_applies") and rec["demo_at_head"]["rc"] == 0 and rec["demo_w
 rec["confirmed"] = bool(ok)
 caught = {}
 if ok:
-    st = sh("git -C /repo status --porcelain --untracked-files=no").stdout.strip()
-    assert not st, "repo dirty"
+    # run the checks against the change in a scratch worktree (NSSMC_SRC), so that /repo itself is never touched
+    cw = f"/tmp/wt/chk_{sid}"
+    sh(f"git -C /repo worktree remove --force {cw}")
+    assert sh(f"/verif/tools/mkwt.sh chk_{sid}").returncode == 0
     try:
-        assert sh(f"git -C /repo apply {src}/patch.diff").returncode == 0
+        assert sh(f"git -C {cw} apply {src}/patch.diff").returncode == 0
         for c in checks:
             t0 = time.time()
-            r = subprocess.run(["/verif/check", c, "--tier", "quick"], capture_output=True, text=True)
+            r = subprocess.run(["/verif/check", c, "--tier", "quick"], capture_output=True, text=True, env=dict(os.environ, NSSMC_SRC=f"{cw}/src", NSSMC_EVIDENCE_DIR=f"{cw}/_evidence"))
             lines = r.stdout.strip().splitlines()
             cl = sorted(set(l.split()[0].replace("clause=", "") for l in lines if l.strip().startswith("clause=")))
             caught[c] = {"rc": r.returncode, "violations": sum(1 for l in lines if l.startswith("VIOLATION")), "clauses": cl, "wall_s": round(time.time() - t0, 1)}
     finally:
-        sh("git -C /repo checkout -- .")
+        sh(f"git -C /repo worktree remove --force {cw}")
 rec["checks_run_against_change"] = caught
 rec["caught_by"] = sorted(c for c, v in caught.items() if v["rc"] == 1)
 dst = f"/verif/seeded/{sid}"
